@@ -403,7 +403,8 @@ def table (e : Entry) (fitted converged : Bool) : List Step :=
   | .accuracy | .logisticScore => [.fitted, .yFinite false, .yDomain false, .xFitted, .lenXY]
   | .gridsearch =>
       if fitted then
-        [.yFinite false, .yDomain false, .xFresh, .lenXY, .vecFinite .weights, .lenEq .y .weights, .compile]
+        -- every candidate `fit` runs inside `try … except ValueError: continue`: a failing `compile` is swallowed
+        [.yFinite false, .yDomain false, .xFresh, .lenXY, .vecFinite .weights, .lenEq .y .weights]
       else
         [.yFinite false, .yDomain false, .xFresh, .lenXY, .compile, .vecFinite .weights, .lenEq .y .weights]
   | .sample => scoreSteps ++ [.sampleAtXFitted]
@@ -419,7 +420,7 @@ def table (e : Entry) (fitted converged : Bool) : List Step :=
   | .poissonGridsearch =>
       exposureSteps ++
       (if fitted then
-        [.yFinite true, .yDomain true, .xFresh, .lenXY, .prodFinite, .lenEq .y .weights, .compile]
+        [.yFinite true, .yDomain true, .xFresh, .lenXY, .prodFinite, .lenEq .y .weights]
       else
         [.yFinite true, .yDomain true, .xFresh, .lenXY, .compile, .prodFinite, .lenEq .y .weights])
 
